@@ -170,33 +170,161 @@ Qed.
 Lemma det_accepts_iff (bs : bytes) : det_accepts bs = true <-> det_check bs = Accept.
 Proof. unfold det_accepts. destruct (det_check bs); split; congruence. Qed.
 
-Section Sign.
-  Variable H512 : bytes -> bytes.
+(* ---- the key recorded in an attributes map ------------------------------------ *)
+(* Go: signatureAttributes["ed25519PublicKey"], nil when absent.  The model's
+   attributes are an association list; the lookup is [find], i.e. the FIRST
+   entry with that name.  (A Go map has one entry per name; a list with the
+   name twice is refused by attrs_cbor, see sign_and_add_ok_nodup.) *)
+Definition is_pk_attr (kv : bytes * bytes) : bool := bytes_eqb (fst kv) pk_attr_name.
+Definition attr_pk (a : attrs) : bytes :=
+  match find is_pk_attr a with Some kv => snd kv | None => [] end.
+(* the entry found under "ed25519PublicKey" is (that name, pk) *)
+Definition recorded_key (a : attrs) (pk : bytes) : Prop :=
+  find is_pk_attr a = Some (pk_attr_name, pk).
+
+Lemma find_pk_attr_some (a : attrs) (kv : bytes * bytes) :
+  find is_pk_attr a = Some kv -> In kv a /\ fst kv = pk_attr_name.
+Proof.
+  intros H. apply find_some in H. destruct H as [H1 H2]. split; [exact H1|].
+  apply bytes_eqb_eq. exact H2.
+Qed.
+
+Lemma recorded_key_attr_pk (a : attrs) (pk : bytes) : recorded_key a pk -> attr_pk a = pk.
+Proof. unfold recorded_key, attr_pk. intros ->. reflexivity. Qed.
+
+Lemma recorded_key_in (a : attrs) (pk : bytes) : recorded_key a pk -> In (pk_attr_name, pk) a.
+Proof. intros H. apply find_pk_attr_some in H. exact (proj1 H). Qed.
+
+Lemma recorded_key_fun (a : attrs) (pk pk' : bytes) :
+  recorded_key a pk -> recorded_key a pk' -> pk = pk'.
+Proof. unfold recorded_key. intros H1 H2. rewrite H1 in H2. injection H2 as E. exact E. Qed.
+
+(* a non-empty looked-up value comes from an entry of the list *)
+Lemma attr_pk_recorded (a : attrs) (pk : bytes) :
+  attr_pk a = pk -> pk <> [] -> recorded_key a pk.
+Proof.
+  unfold attr_pk, recorded_key. intros H Hne.
+  destruct (find is_pk_attr a) as [[k v]|] eqn:Hf.
+  - apply find_pk_attr_some in Hf. destruct Hf as [_ Hk]. cbn [fst snd] in *. subst k v. reflexivity.
+  - symmetry in H. contradiction.
+Qed.
+
+Lemma attr_pk_none (a : attrs) : (forall v, ~ In (pk_attr_name, v) a) -> attr_pk a = [].
+Proof.
+  intros Hn. unfold attr_pk. destruct (find is_pk_attr a) as [[k v]|] eqn:Hf; [|reflexivity].
+  apply find_pk_attr_some in Hf. destruct Hf as [Hi Hk]. cbn [fst] in Hk. subst k.
+  exfalso. exact (Hn v Hi).
+Qed.
+
+Lemma in_find_pk_attr (a : attrs) (v : bytes) :
+  In (pk_attr_name, v) a -> exists v', recorded_key a v'.
+Proof.
+  intros Hi. unfold recorded_key. destruct (find is_pk_attr a) as [[k v']|] eqn:Hf.
+  - exists v'. apply find_pk_attr_some in Hf. destruct Hf as [_ Hk]. cbn [fst] in Hk. subst k. reflexivity.
+  - exfalso. pose proof (find_none _ _ Hf _ Hi) as Hn. unfold is_pk_attr in Hn. cbn [fst] in Hn.
+    rewrite bytes_eqb_refl in Hn. discriminate.
+Qed.
+
+(* the recorded key is unambiguous: a successfully encoded attributes map
+   has no two entries with the same name *)
+Lemma nodup_value_unique (a : attrs) (k v v' : bytes) :
+  NoDup (map fst a) -> In (k, v) a -> In (k, v') a -> v = v'.
+Proof.
+  intros H.
+  induction a as [|[k0 v0] a IH]; cbn [map fst] in H; intros H1 H2; [destruct H1|].
+  inversion H as [|x l Hnin HN]; subst.
+  destruct H1 as [E1|H1], H2 as [E2|H2].
+  - congruence.
+  - injection E1 as -> ->. exfalso. apply Hnin. apply (in_map fst) in H2. exact H2.
+  - injection E2 as -> ->. exfalso. apply Hnin. apply (in_map fst) in H1. exact H1.
+  - apply IH; assumption.
+Qed.
+
+Lemma attr_value_unique (a : attrs) (ab k v v' : bytes) :
+  attrs_cbor a = Ok ab -> In (k, v) a -> In (k, v') a -> v = v'.
+Proof. intros H. apply attrs_keys_nodup in H. apply nodup_value_unique. exact H. Qed.
+
+(* with distinct names, "the list contains (name, pk)" and "the lookup finds
+   pk" are the same thing *)
+Lemma nodup_in_recorded (a : attrs) (pk : bytes) :
+  NoDup (map fst a) -> In (pk_attr_name, pk) a -> recorded_key a pk.
+Proof.
+  intros HN Hi. destruct (in_find_pk_attr a pk Hi) as [v' Hr].
+  rewrite (nodup_value_unique a pk_attr_name pk v' HN Hi (recorded_key_in a v' Hr)). exact Hr.
+Qed.
+
+Lemma Forall2_rev {A B} (P : A -> B -> Prop) (l : list A) (l' : list B) :
+  Forall2 P l l' -> Forall2 P (rev l) (rev l').
+Proof.
+  induction 1 as [|x y l l' Hxy HF IH]; cbn [rev]; [constructor|].
+  apply Forall2_app; [exact IH|constructor; [exact Hxy|constructor]].
+Qed.
+
+Lemma Forall2_map_left {A B C} (f : A -> B) (P : B -> C -> Prop) (l : list A) :
+  forall l', Forall2 P (map f l) l' <-> Forall2 (fun x y => P (f x) y) l l'.
+Proof.
+  induction l as [|x l IH]; intros l'; cbn [map]; split; intros H; inversion H; subst;
+    constructor; try assumption; apply IH; assumption.
+Qed.
+
+Lemma Forall2_impl {A B} (P Q : A -> B -> Prop) (l : list A) (l' : list B) :
+  (forall x y, P x y -> Q x y) -> Forall2 P l l' -> Forall2 Q l l'.
+Proof. intros HI. induction 1; constructor; auto. Qed.
+
+Lemma iblock_eta (b : iblock) : {| ib_stack := ib_stack b |} = b.
+Proof. destruct b. reflexivity. Qed.
+
+Definition push (b : iblock) (a : attrs) (sg : bytes) : iblock :=
+  {| ib_stack := {| is_attrs := a; is_sig := sg |} :: ib_stack b |}.
+
+Definition no_panic (strat : bytes -> R bytes) : Prop :=
+  forall m, strat m <> Panic /\ strat m <> Fuel.
+
+Section SignAdd.
   Variable strat_sign : bytes -> R bytes.
   Variable ed_ok : bytes -> bytes -> bytes -> bool.
 
-  Definition push (b : iblock) (a : attrs) (sg : bytes) : iblock :=
-    {| ib_stack := {| is_attrs := a; is_sig := sg |} :: ib_stack b |}.
+  Lemma sign_and_add_unfold (hash : bytes) (b : iblock) (pk : bytes) (a : attrs) :
+    sign_and_add strat_sign ed_ok hash b pk a =
+    if negb (bytes_eqb (attr_pk a) pk) then Err else
+    let* blk := block_cbor b in
+    if negb (det_accepts blk) then Err
+    else
+      let* dtbs := data_to_be_signed hash blk a in
+      let* sg := strat_sign dtbs in
+      if negb (lenN pk =? 32) then Err
+      else if negb (ed_ok pk dtbs sg) then Err
+      else Ok (push b a sg).
+  Proof. reflexivity. Qed.
 
+  (* success, exactly: the attributes carry the key (first), the key has the
+     Ed25519 length (tested after the strategy has signed), the block and the
+     attributes serialize, the strategy signs, the signature verifies *)
   Theorem sign_and_add_ok_iff (hash : bytes) (b : iblock) (pk : bytes) (a : attrs) (b' : iblock) :
     sign_and_add strat_sign ed_ok hash b pk a = Ok b' <->
+    attr_pk a = pk /\ lenN pk = 32 /\
     exists blk dtbs sg,
       block_cbor b = Ok blk /\ det_check blk = Accept /\
       data_to_be_signed hash blk a = Ok dtbs /\
       strat_sign dtbs = Ok sg /\ ed_ok pk dtbs sg = true /\
       b' = push b a sg.
   Proof.
-    unfold sign_and_add, push. split.
-    - destruct (block_cbor b) as [blk| | |] eqn:Hb; cbn [bind]; try discriminate.
+    rewrite sign_and_add_unfold. split.
+    - destruct (bytes_eqb (attr_pk a) pk) eqn:Ha; cbn [negb]; [|discriminate].
+      apply bytes_eqb_eq in Ha.
+      destruct (block_cbor b) as [blk| | |] eqn:Hb; cbn [bind]; try discriminate.
       destruct (det_accepts blk) eqn:Hd; cbn [negb]; [|discriminate].
       destruct (data_to_be_signed hash blk a) as [dtbs| | |] eqn:Hdt; cbn [bind]; try discriminate.
       destruct (strat_sign dtbs) as [sg| | |] eqn:Hs; cbn [bind]; try discriminate.
+      destruct (N.eqb_spec (lenN pk) 32) as [Hl|Hl]; cbn [negb]; [|discriminate].
       destruct (ed_ok pk dtbs sg) eqn:He; cbn [negb]; [|discriminate].
-      intros H. injection H as <-. exists blk, dtbs, sg.
+      intros H. injection H as <-. split; [exact Ha|]. split; [exact Hl|]. exists blk, dtbs, sg.
       apply det_accepts_iff in Hd. repeat split; try assumption; reflexivity.
-    - intros [blk [dtbs [sg [H1 [H2 [H3 [H4 [H5 H6]]]]]]]].
+    - intros [Ha [Hl [blk [dtbs [sg [H1 [H2 [H3 [H4 [H5 H6]]]]]]]]]].
+      apply bytes_eqb_eq in Ha. rewrite Ha. cbn [negb].
       rewrite H1. cbn [bind]. apply det_accepts_iff in H2. rewrite H2. cbn [negb].
-      rewrite H3. cbn [bind]. rewrite H4. cbn [bind]. rewrite H5. cbn [negb].
+      rewrite H3. cbn [bind]. rewrite H4. cbn [bind].
+      apply N.eqb_eq in Hl. rewrite Hl. cbn [negb]. rewrite H5. cbn [negb].
       rewrite H6. reflexivity.
   Qed.
 
@@ -208,23 +336,160 @@ Section Sign.
       ib_stack b' = {| is_attrs := a; is_sig := sg |} :: ib_stack b.
   Proof.
     intros H. apply sign_and_add_ok_iff in H.
-    destruct H as [blk [dtbs [sg [H1 [H2 [H3 [H4 [H5 H6]]]]]]]].
+    destruct H as [_ [_ [blk [dtbs [sg [H1 [H2 [H3 [H4 [H5 H6]]]]]]]]]].
     exists blk, dtbs, sg. subst b'. repeat split; assumption.
   Qed.
 
+  (* a successful call was given attributes that record, under
+     "ed25519PublicKey", exactly the 32-byte key the signature was verified
+     with: the lookup (first entry of that name) finds an entry, and its
+     value is pk *)
+  Theorem sign_and_add_ok_attr (hash : bytes) (b : iblock) (pk : bytes) (a : attrs) (b' : iblock) :
+    sign_and_add strat_sign ed_ok hash b pk a = Ok b' ->
+    find (fun kv => bytes_eqb (fst kv) pk_attr_name) a = Some (pk_attr_name, pk) /\ lenN pk = 32.
+  Proof.
+    intros H. apply sign_and_add_ok_iff in H. destruct H as [Ha [Hl _]].
+    split; [|exact Hl]. apply (attr_pk_recorded a pk Ha). intros E. rewrite E in Hl. discriminate.
+  Qed.
+
+  (* ... and there is no other entry of that name: the attributes have been
+     encoded (for the data to be signed), which refuses a repeated name *)
+  Theorem sign_and_add_ok_nodup (hash : bytes) (b : iblock) (pk : bytes) (a : attrs) (b' : iblock) :
+    sign_and_add strat_sign ed_ok hash b pk a = Ok b' -> NoDup (map fst a).
+  Proof.
+    intros H. apply sign_and_add_ok_iff in H.
+    destruct H as [_ [_ [blk [dtbs [sg [_ [_ [H3 _]]]]]]]].
+    apply dtbs_ok_iff in H3. destruct H3 as [ab [H3 _]]. eapply attrs_keys_nodup. exact H3.
+  Qed.
+
+  Theorem sign_and_add_ok_attr_unique (hash : bytes) (b : iblock) (pk : bytes) (a : attrs) (b' : iblock) :
+    sign_and_add strat_sign ed_ok hash b pk a = Ok b' ->
+    In (pk_attr_name, pk) a /\ (forall v, In (pk_attr_name, v) a -> v = pk) /\ lenN pk = 32.
+  Proof.
+    intros H. pose proof (sign_and_add_ok_nodup _ _ _ _ _ H) as HN.
+    apply sign_and_add_ok_attr in H. destruct H as [Hr Hl].
+    pose proof (recorded_key_in a pk Hr) as Hi.
+    split; [exact Hi|]. split; [|exact Hl].
+    intros v Hv. exact (nodup_value_unique a pk_attr_name v pk HN Hv Hi).
+  Qed.
+
+  (* ---- refusals ---------------------------------------------------------------- *)
+  (* All of these return without a block.  The function is pure; its input
+     block [b] is a value and is by construction unchanged - the only block
+     with the new signature is the one returned inside Ok. *)
+
+  (* the attributes carry another key, or none: error, before anything is
+     serialized or signed *)
+  Theorem sign_and_add_wrong_attr_err (hash : bytes) (b : iblock) (pk : bytes) (a : attrs) :
+    attr_pk a <> pk -> sign_and_add strat_sign ed_ok hash b pk a = Err.
+  Proof.
+    intros H. rewrite sign_and_add_unfold. apply bytes_eqb_neq in H. rewrite H. reflexivity.
+  Qed.
+
+  (* the lookup finds another key *)
+  Theorem sign_and_add_other_key_err (hash : bytes) (b : iblock) (pk pk' : bytes) (a : attrs) :
+    recorded_key a pk' -> pk' <> pk -> sign_and_add strat_sign ed_ok hash b pk a = Err.
+  Proof.
+    intros Hr Hne. apply sign_and_add_wrong_attr_err. rewrite (recorded_key_attr_pk a pk' Hr). exact Hne.
+  Qed.
+
+  (* no entry of that name (Go: the nil slice), key not empty *)
+  Theorem sign_and_add_no_key_err (hash : bytes) (b : iblock) (pk : bytes) (a : attrs) :
+    (forall v, ~ In (pk_attr_name, v) a) -> pk <> [] ->
+    sign_and_add strat_sign ed_ok hash b pk a = Err.
+  Proof.
+    intros Hn Hne. apply sign_and_add_wrong_attr_err. rewrite (attr_pk_none a Hn).
+    intros E. apply Hne. symmetry. exact E.
+  Qed.
+
+  (* in terms of list membership only, for ANY association list (names may
+     repeat): an entry ("ed25519PublicKey", v) with v <> pk anywhere in the
+     list is an error - either the lookup finds a wrong value, or it finds pk
+     and then the name occurs twice and the attributes do not encode *)
+  Theorem sign_and_add_other_key_in_err (hash : bytes) (b : iblock) (pk v : bytes) (a : attrs) :
+    In (pk_attr_name, v) a -> v <> pk -> sign_and_add strat_sign ed_ok hash b pk a = Err.
+  Proof.
+    intros Hi Hne. destruct (in_find_pk_attr a v Hi) as [v' Hr].
+    destruct (bytes_eqb v' pk) eqn:E.
+    - apply bytes_eqb_eq in E. subst v'.
+      rewrite sign_and_add_unfold. destruct (negb (bytes_eqb (attr_pk a) pk)); [reflexivity|].
+      destruct (block_cbor_ok_or_err b) as [Hb|[blk Hb]]; rewrite Hb; cbn [bind]; [reflexivity|].
+      destruct (negb (det_accepts blk)); [reflexivity|].
+      destruct (dtbs_ok_or_err hash blk a) as [Hd|[d Hd]]; rewrite Hd; cbn [bind]; [reflexivity|].
+      exfalso. apply dtbs_ok_iff in Hd. destruct Hd as [ab [Hab _]].
+      apply Hne. exact (attr_value_unique a ab pk_attr_name v pk Hab Hi (recorded_key_in a pk Hr)).
+    - apply bytes_eqb_neq in E. eapply sign_and_add_other_key_err; eassumption.
+  Qed.
+
+  Theorem sign_and_add_not_recorded_err (hash : bytes) (b : iblock) (pk : bytes) (a : attrs) :
+    ~ In (pk_attr_name, pk) a -> pk <> [] -> sign_and_add strat_sign ed_ok hash b pk a = Err.
+  Proof.
+    intros Hn Hne. apply sign_and_add_wrong_attr_err. intros E.
+    apply Hn. apply recorded_key_in. apply attr_pk_recorded; assumption.
+  Qed.
+
+  (* a repeated attribute name (impossible for a Go map) never succeeds *)
+  Theorem sign_and_add_dup_name_err (hash : bytes) (b : iblock) (pk : bytes) (a : attrs) :
+    ~ NoDup (map fst a) -> sign_and_add strat_sign ed_ok hash b pk a = Err.
+  Proof.
+    intros HN. rewrite sign_and_add_unfold. destruct (negb (bytes_eqb (attr_pk a) pk)); [reflexivity|].
+    destruct (block_cbor_ok_or_err b) as [Hb|[blk Hb]]; rewrite Hb; cbn [bind]; [reflexivity|].
+    destruct (negb (det_accepts blk)); [reflexivity|].
+    destruct (dtbs_ok_or_err hash blk a) as [Hd|[d Hd]]; rewrite Hd; cbn [bind]; [reflexivity|].
+    exfalso. apply dtbs_ok_iff in Hd. destruct Hd as [ab [Hab _]].
+    apply HN. eapply attrs_keys_nodup. exact Hab.
+  Qed.
+
+  (* a key that is not 32 bytes long is never recorded (whatever ed_ok says) *)
+  Theorem sign_and_add_bad_key_length_never_ok (hash : bytes) (b : iblock) (pk : bytes) (a : attrs) :
+    lenN pk <> 32 -> forall b', sign_and_add strat_sign ed_ok hash b pk a <> Ok b'.
+  Proof.
+    intros Hl b' H. apply sign_and_add_ok_iff in H. destruct H as [_ [Hl' _]]. contradiction.
+  Qed.
+
+  (* the length is tested by VerifyEd25519Signature, i.e. after the strategy
+     has been asked to sign: the result is the error unless the strategy
+     itself panics or diverges *)
+  Theorem sign_and_add_bad_key_length_err (hash : bytes) (b : iblock) (pk : bytes) (a : attrs) :
+    no_panic strat_sign -> lenN pk <> 32 -> sign_and_add strat_sign ed_ok hash b pk a = Err.
+  Proof.
+    intros Hs Hl. rewrite sign_and_add_unfold. destruct (negb (bytes_eqb (attr_pk a) pk)); [reflexivity|].
+    destruct (block_cbor_ok_or_err b) as [Hb|[blk Hb]]; rewrite Hb; cbn [bind]; [reflexivity|].
+    destruct (negb (det_accepts blk)); [reflexivity|].
+    destruct (dtbs_ok_or_err hash blk a) as [Hd|[d Hd]]; rewrite Hd; cbn [bind]; [reflexivity|].
+    destruct (Hs d) as [N1 N2].
+    destruct (strat_sign d) as [sg| | |]; cbn [bind]; [|reflexivity|contradiction|contradiction].
+    destruct (N.eqb_spec (lenN pk) 32) as [C|C]; [contradiction|reflexivity].
+  Qed.
+
+  (* the form of sign_and_add_mismatch: everything up to the verification
+     succeeds, the key has the wrong length *)
+  Theorem sign_and_add_bad_key_length (hash : bytes) (b : iblock) (pk : bytes) (a : attrs)
+      (blk dtbs sg : bytes) :
+    block_cbor b = Ok blk -> data_to_be_signed hash blk a = Ok dtbs ->
+    strat_sign dtbs = Ok sg -> lenN pk <> 32 ->
+    sign_and_add strat_sign ed_ok hash b pk a = Err.
+  Proof.
+    intros H1 H3 H4 Hl. rewrite sign_and_add_unfold.
+    destruct (negb (bytes_eqb (attr_pk a) pk)); [reflexivity|]. rewrite H1. cbn [bind].
+    destruct (det_accepts blk); cbn [negb]; [|reflexivity].
+    rewrite H3. cbn [bind]. rewrite H4. cbn [bind].
+    destruct (N.eqb_spec (lenN pk) 32) as [C|C]; [contradiction|reflexivity].
+  Qed.
+
   (* the signature obtained does not verify under the key about to be
-     recorded: error.  The function is pure; its input block [b] is a value
-     and is by construction unchanged - the only block with the new signature
-     is the one returned inside Ok, and nothing is returned. *)
+     recorded: error *)
   Theorem sign_and_add_mismatch (hash : bytes) (b : iblock) (pk : bytes) (a : attrs)
       (blk dtbs sg : bytes) :
     block_cbor b = Ok blk -> data_to_be_signed hash blk a = Ok dtbs ->
     strat_sign dtbs = Ok sg -> ed_ok pk dtbs sg = false ->
     sign_and_add strat_sign ed_ok hash b pk a = Err.
   Proof.
-    intros H1 H3 H4 H5. unfold sign_and_add. rewrite H1. cbn [bind].
+    intros H1 H3 H4 H5. rewrite sign_and_add_unfold.
+    destruct (negb (bytes_eqb (attr_pk a) pk)); [reflexivity|]. rewrite H1. cbn [bind].
     destruct (det_accepts blk); cbn [negb]; [|reflexivity].
-    rewrite H3. cbn [bind]. rewrite H4. cbn [bind]. rewrite H5. reflexivity.
+    rewrite H3. cbn [bind]. rewrite H4. cbn [bind]. rewrite H5.
+    destruct (negb (lenN pk =? 32)); reflexivity.
   Qed.
 
   Theorem sign_and_add_mismatch_never_ok (hash : bytes) (b : iblock) (pk : bytes) (a : attrs) :
@@ -233,7 +498,7 @@ Section Sign.
     forall b', sign_and_add strat_sign ed_ok hash b pk a <> Ok b'.
   Proof.
     intros Hbad b' H. apply sign_and_add_ok_iff in H.
-    destruct H as [blk [dtbs [sg [H1 [H2 [H3 [H4 [H5 H6]]]]]]]].
+    destruct H as [_ [_ [blk [dtbs [sg [H1 [H2 [H3 [H4 [H5 H6]]]]]]]]]].
     rewrite (Hbad blk dtbs sg H1 H3 H4) in H5. discriminate.
   Qed.
 
@@ -243,9 +508,26 @@ Section Sign.
     block_cbor b = Ok blk -> data_to_be_signed hash blk a = Ok dtbs ->
     strat_sign dtbs = Err -> sign_and_add strat_sign ed_ok hash b pk a = Err.
   Proof.
-    intros H1 H3 H4. unfold sign_and_add. rewrite H1. cbn [bind].
+    intros H1 H3 H4. rewrite sign_and_add_unfold.
+    destruct (negb (bytes_eqb (attr_pk a) pk)); [reflexivity|]. rewrite H1. cbn [bind].
     destruct (det_accepts blk); cbn [negb]; [|reflexivity].
     rewrite H3. cbn [bind]. rewrite H4. reflexivity.
+  Qed.
+
+  (* no panic, no divergence unless the strategy's *)
+  Theorem sign_and_add_ok_or_err (hash : bytes) (b : iblock) (pk : bytes) (a : attrs) :
+    no_panic strat_sign ->
+    sign_and_add strat_sign ed_ok hash b pk a = Err \/
+    exists b', sign_and_add strat_sign ed_ok hash b pk a = Ok b'.
+  Proof.
+    intros Hs. rewrite sign_and_add_unfold. destruct (negb (bytes_eqb (attr_pk a) pk)); [left; reflexivity|].
+    destruct (block_cbor_ok_or_err b) as [Hb|[blk Hb]]; rewrite Hb; cbn [bind]; [left; reflexivity|].
+    destruct (negb (det_accepts blk)); [left; reflexivity|].
+    destruct (dtbs_ok_or_err hash blk a) as [Hd|[d Hd]]; rewrite Hd; cbn [bind]; [left; reflexivity|].
+    destruct (Hs d) as [N1 N2].
+    destruct (strat_sign d) as [sg| | |]; cbn [bind]; [|left; reflexivity|contradiction|contradiction].
+    destruct (negb (lenN pk =? 32)); [left; reflexivity|].
+    destruct (negb (ed_ok pk d sg)); [left; reflexivity|right; eexists; reflexivity].
   Qed.
 
   (* ---- any sequence of signing operations -------------------------------------- *)
@@ -270,8 +552,12 @@ Section Sign.
       Valid_stack hash rest pks ->
       Valid_stack hash (s :: rest) (pk :: pks).
 
-  Lemma iblock_eta (b : iblock) : {| ib_stack := ib_stack b |} = b.
-  Proof. destruct b. reflexivity. Qed.
+  Lemma Valid_stack_nodup (hash : bytes) (st : list isig) (pks : list bytes) :
+    Valid_stack hash st pks -> Forall (fun s => NoDup (map fst (is_attrs s))) st.
+  Proof.
+    induction 1 as [|s rest pk pks blk dtbs H1 H2 H3 H4 HV IH]; constructor; [|exact IH].
+    apply dtbs_ok_iff in H3. destruct H3 as [ab [H3 _]]. eapply attrs_keys_nodup. exact H3.
+  Qed.
 
   Lemma sign_all_invariant (hash : bytes) (ops : list (bytes * attrs)) :
     forall b pks b',
@@ -287,7 +573,7 @@ Section Sign.
     - destruct (sign_and_add strat_sign ed_ok hash b pk a) as [b1| | |] eqn:H1;
         cbn [bind] in H; try discriminate.
       apply sign_and_add_ok_iff in H1.
-      destruct H1 as [blk [dtbs [sg [B1 [B2 [B3 [B4 [B5 B6]]]]]]]].
+      destruct H1 as [_ [_ [blk [dtbs [sg [B1 [B2 [B3 [B4 [B5 B6]]]]]]]]]].
       assert (HV1 : Valid_stack hash (ib_stack b1) (pk :: pks)).
       { subst b1. unfold push. cbn [ib_stack].
         apply (VS_cons hash _ _ _ _ blk dtbs); cbn [is_attrs is_sig];
@@ -297,6 +583,17 @@ Section Sign.
       + rewrite E1. subst b1. unfold push. cbn [ib_stack]. rewrite <- app_assoc. reflexivity.
       + rewrite map_app, E2. cbn [map rev is_attrs snd]. reflexivity.
       + cbn [map rev fst]. rewrite <- app_assoc. exact E3.
+  Qed.
+
+  (* every operation of a successful sequence carried its key *)
+  Lemma sign_all_ok_recorded (hash : bytes) (ops : list (bytes * attrs)) :
+    forall b b', sign_all hash b ops = Ok b' ->
+      Forall (fun op => recorded_key (snd op) (fst op) /\ lenN (fst op) = 32) ops.
+  Proof.
+    induction ops as [|[pk a] ops IH]; intros b b' H; cbn [sign_all] in H; [constructor|].
+    destruct (sign_and_add strat_sign ed_ok hash b pk a) as [b1| | |] eqn:H1;
+      cbn [bind] in H; try discriminate.
+    constructor; [|exact (IH b1 b' H)]. cbn [fst snd]. eapply sign_and_add_ok_attr. exact H1.
   Qed.
 
   (* the statement of C07 for any list of signing operations, from the empty
@@ -314,49 +611,261 @@ Section Sign.
     rewrite <- (lenN_map is_attrs), E2, !lenN_length, rev_length, map_length. reflexivity.
   Qed.
 
-  (* self-certifying form: the key is the one recorded in the signature's own
-     attributes under "ed25519PublicKey" *)
+  (* self-certifying form: every signature verifies under the key that the
+     lookup of "ed25519PublicKey" finds in the signature's OWN attributes (and
+     finds in an entry: the key is present, not the nil of a missing name) *)
   Definition Valid_self (hash : bytes) (st : list isig) : Prop :=
     exists pks, Valid_stack hash st pks /\
-                Forall2 (fun s pk => In (pk_attr_name, pk) (is_attrs s)) st pks.
+                Forall2 (fun s pk => recorded_key (is_attrs s) pk) st pks.
 
-  Lemma Forall2_rev {A B} (P : A -> B -> Prop) (l : list A) (l' : list B) :
-    Forall2 P l l' -> Forall2 P (rev l) (rev l').
+  (* the same with plain list membership; no NoDup premise is needed in
+     either direction, Valid_stack has encoded every attributes map *)
+  Lemma Valid_self_iff_in (hash : bytes) (st : list isig) :
+    Valid_self hash st <->
+    exists pks, Valid_stack hash st pks /\
+                Forall2 (fun s pk => In (pk_attr_name, pk) (is_attrs s)) st pks.
   Proof.
-    induction 1 as [|x y l l' Hxy HF IH]; cbn [rev]; [constructor|].
-    apply Forall2_app; [exact IH|constructor; [exact Hxy|constructor]].
+    split; intros [pks [HV HF]]; exists pks; (split; [exact HV|]).
+    - eapply Forall2_impl; [|exact HF]. intros s pk. apply recorded_key_in.
+    - apply Valid_stack_nodup in HV. clear - HV HF.
+      induction HF as [|s pk st pks Hs HF IH]; constructor.
+      + inversion HV; subst. apply nodup_in_recorded; assumption.
+      + apply IH. inversion HV; assumption.
+  Qed.
+
+  (* the keys are determined by the stack *)
+  Lemma Valid_self_keys (hash : bytes) (st : list isig) :
+    Valid_self hash st <->
+    Valid_stack hash st (map (fun s => attr_pk (is_attrs s)) st) /\
+    Forall (fun s => recorded_key (is_attrs s) (attr_pk (is_attrs s))) st.
+  Proof.
+    split.
+    - intros [pks [HV HF]].
+      assert (E : pks = map (fun s => attr_pk (is_attrs s)) st /\
+                  Forall (fun s => recorded_key (is_attrs s) (attr_pk (is_attrs s))) st).
+      { clear HV. induction HF as [|s pk st pks Hs HF [IH1 IH2]]; [split; [reflexivity|constructor]|].
+        pose proof (recorded_key_attr_pk _ _ Hs) as E. cbn [map]. split.
+        - rewrite E, <- IH1. reflexivity.
+        - constructor; [rewrite E; exact Hs|exact IH2]. }
+      destruct E as [E1 E2]. subst pks. split; assumption.
+    - intros [HV HF]. exists (map (fun s => attr_pk (is_attrs s)) st). split; [exact HV|].
+      clear HV. induction HF as [|s st Hs HF IH]; cbn [map]; constructor; assumption.
+  Qed.
+
+  Lemma Valid_self_nil (hash : bytes) : Valid_self hash [].
+  Proof. exists []. split; constructor. Qed.
+
+  (* one successful call keeps the invariant and adds exactly one signature on top *)
+  Lemma sign_and_add_keeps_self (hash : bytes) (b : iblock) (pk : bytes) (a : attrs) (b' : iblock) :
+    Valid_self hash (ib_stack b) ->
+    sign_and_add strat_sign ed_ok hash b pk a = Ok b' ->
+    Valid_self hash (ib_stack b') /\
+    exists sg, ib_stack b' = {| is_attrs := a; is_sig := sg |} :: ib_stack b.
+  Proof.
+    intros [pks [HV HF]] H. pose proof (sign_and_add_ok_attr _ _ _ _ _ H) as [Hr Hl].
+    apply sign_and_add_ok_iff in H.
+    destruct H as [_ [_ [blk [dtbs [sg [B1 [B2 [B3 [B4 [B5 B6]]]]]]]]]].
+    subst b'. unfold push. cbn [ib_stack]. split; [|exists sg; reflexivity].
+    exists (pk :: pks). split.
+    - apply (VS_cons hash _ _ _ _ blk dtbs); cbn [is_attrs is_sig];
+        first [assumption | rewrite iblock_eta; exact B1].
+    - constructor; [exact Hr|exact HF].
+  Qed.
+
+  (* C07 for any successful sequence of signing operations, from any block
+     that satisfies the invariant.  No premise on the attributes: that each
+     operation's attributes carry its key is enforced by sign_and_add. *)
+  Theorem stack_invariant_self_from (hash : bytes) (ops : list (bytes * attrs)) :
+    forall (b b' : iblock),
+    Valid_self hash (ib_stack b) ->
+    sign_all hash b ops = Ok b' ->
+    Valid_self hash (ib_stack b') /\
+    exists newer, ib_stack b' = newer ++ ib_stack b /\ map is_attrs newer = rev (map snd ops).
+  Proof.
+    induction ops as [|[pk a] ops IH]; intros b b' HS H; cbn [sign_all] in H.
+    - injection H as <-. split; [exact HS|]. exists []. split; reflexivity.
+    - destruct (sign_and_add strat_sign ed_ok hash b pk a) as [b1| | |] eqn:H1;
+        cbn [bind] in H; try discriminate.
+      destruct (sign_and_add_keeps_self hash b pk a b1 HS H1) as [HS1 [sg E1]].
+      destruct (IH b1 b' HS1 H) as [HS' [newer [E2 E3]]]. split; [exact HS'|].
+      exists (newer ++ [{| is_attrs := a; is_sig := sg |}]). split.
+      + rewrite E2, E1, <- app_assoc. reflexivity.
+      + rewrite map_app, E3. cbn [map rev is_attrs snd]. reflexivity.
   Qed.
 
   Theorem stack_invariant_self (hash : bytes) (ops : list (bytes * attrs)) (b' : iblock) :
-    Forall (fun op => In (pk_attr_name, fst op) (snd op)) ops ->
     sign_all hash empty_block ops = Ok b' ->
-    Valid_self hash (ib_stack b') /\ lenN (ib_stack b') = lenN ops.
+    Valid_self hash (ib_stack b') /\ lenN (ib_stack b') = lenN ops /\
+    Forall (fun op => recorded_key (snd op) (fst op) /\ lenN (fst op) = 32) ops.
   Proof.
-    intros HF H. destruct (stack_invariant hash ops b' H) as [HV [HA HL]].
-    split; [|exact HL]. exists (rev (map fst ops)). split; [exact HV|].
-    assert (HF2 : Forall2 (fun (a : attrs) pk => In (pk_attr_name, pk) a) (map snd ops) (map fst ops)).
-    { clear - HF. induction HF as [|op ops Hop HF IH]; cbn [map]; constructor; assumption. }
-    apply Forall2_rev in HF2. rewrite <- HA in HF2.
-    remember (ib_stack b') as st eqn:Est. remember (rev (map fst ops)) as pks eqn:Epks.
-    clear - HF2. revert pks HF2. induction st as [|s st IH]; intros pks HF2; cbn [map] in HF2.
-    - inversion HF2. constructor.
-    - inversion HF2 as [|x y l l' Hxy HF']; subst. constructor; [exact Hxy|apply IH; exact HF'].
+    intros H. destruct (stack_invariant hash ops b' H) as [_ [_ HL]].
+    destruct (stack_invariant_self_from hash ops empty_block b' (Valid_self_nil hash) H) as [HS _].
+    split; [exact HS|]. split; [exact HL|]. eapply sign_all_ok_recorded. exact H.
+  Qed.
+End SignAdd.
+
+(* ---- any history of calls on one signer, failing ones included ------------------ *)
+(* One call of SignAndAddNewSignature: the strategy held by the signer at that
+   moment (the field can be reassigned between calls), the key and the
+   attributes passed.  ed25519.Verify is one fixed function. *)
+Record attempt := { at_strat : bytes -> R bytes; at_pk : bytes; at_attrs : attrs }.
+
+Section Attempts.
+  Variable ed_ok : bytes -> bytes -> bytes -> bool.
+
+  Definition try_sign (hash : bytes) (b : iblock) (t : attempt) : R iblock :=
+    sign_and_add (at_strat t) ed_ok hash b (at_pk t) (at_attrs t).
+
+  (* the signer's block after the call: the new block on success, the old one
+     on an error (and, to be total, on a panic of the strategy) *)
+  Definition attempt_step (hash : bytes) (b : iblock) (t : attempt) : iblock :=
+    match try_sign hash b t with Ok b' => b' | _ => b end.
+
+  Fixpoint attempts (hash : bytes) (b : iblock) (ts : list attempt) : iblock :=
+    match ts with
+    | [] => b
+    | t :: r => attempts hash (attempt_step hash b t) r
+    end.
+
+  (* the calls that succeeded, oldest first *)
+  Fixpoint accepted (hash : bytes) (b : iblock) (ts : list attempt) : list attempt :=
+    match ts with
+    | [] => []
+    | t :: r =>
+        match try_sign hash b t with
+        | Ok b' => t :: accepted hash b' r
+        | _ => accepted hash b r
+        end
+    end.
+
+  Lemma attempts_app (hash : bytes) (ts1 ts2 : list attempt) :
+    forall b, attempts hash b (ts1 ++ ts2) = attempts hash (attempts hash b ts1) ts2.
+  Proof. induction ts1 as [|t ts1 IH]; intros b; cbn [attempts app]; [reflexivity|apply IH]. Qed.
+
+  (* a failing call leaves the block as it was *)
+  Lemma attempt_step_fail (hash : bytes) (b : iblock) (t : attempt) :
+    (forall b', try_sign hash b t <> Ok b') -> attempt_step hash b t = b.
+  Proof.
+    intros H. unfold attempt_step. destruct (try_sign hash b t) as [b'| | |]; try reflexivity.
+    exfalso. exact (H b' eq_refl).
   Qed.
 
-  (* the recorded key is unambiguous: a successfully encoded attributes map
-     has no two entries with the same name *)
-  Lemma attr_value_unique (a : attrs) (ab k v v' : bytes) :
-    attrs_cbor a = Ok ab -> In (k, v) a -> In (k, v') a -> v = v'.
+  Definition key32 (s : isig) : Prop := lenN (attr_pk (is_attrs s)) = 32.
+
+  (* C07 over any history: from a block whose stack satisfies the invariant
+     (the empty one does), after any list of calls whatsoever - wrong
+     attributes, wrong key length, failing or lying strategies interleaved -
+     every listed signature verifies under the key found in its own
+     attributes over the data-to-be-signed built from the block as it stood
+     before; the old signatures are still there, untouched, below exactly one
+     new signature per successful call, newest first, each with a 32-byte key *)
+  Theorem attempts_invariant (hash : bytes) (ts : list attempt) :
+    forall b : iblock,
+    Valid_self ed_ok hash (ib_stack b) ->
+    Valid_self ed_ok hash (ib_stack (attempts hash b ts)) /\
+    exists newer,
+      ib_stack (attempts hash b ts) = newer ++ ib_stack b /\
+      map is_attrs newer = rev (map at_attrs (accepted hash b ts)) /\
+      Forall key32 newer /\
+      Forall (fun t => recorded_key (at_attrs t) (at_pk t) /\ lenN (at_pk t) = 32) (accepted hash b ts).
   Proof.
-    intros H. apply attrs_keys_nodup in H. clear ab.
-    induction a as [|[k0 v0] a IH]; cbn [map fst] in H; intros H1 H2; [destruct H1|].
-    inversion H as [|x l Hnin HN]; subst.
-    destruct H1 as [E1|H1], H2 as [E2|H2].
-    - congruence.
-    - injection E1 as -> ->. exfalso. apply Hnin. apply (in_map fst) in H2. exact H2.
-    - injection E2 as -> ->. exfalso. apply Hnin. apply (in_map fst) in H1. exact H1.
-    - apply IH; assumption.
+    induction ts as [|t ts IH]; intros b HS; cbn [attempts accepted].
+    - split; [exact HS|]. exists []. repeat split; constructor.
+    - unfold attempt_step. destruct (try_sign hash b t) as [b1| | |] eqn:H1; try (apply IH; exact HS).
+      unfold try_sign in H1.
+      destruct (sign_and_add_keeps_self _ _ hash b _ _ b1 HS H1) as [HS1 [sg E1]].
+      pose proof (sign_and_add_ok_attr _ _ _ _ _ _ _ H1) as [Hr Hl].
+      destruct (IH b1 HS1) as [HS' [newer [E2 [E3 [E4 E5]]]]]. split; [exact HS'|].
+      exists (newer ++ [{| is_attrs := at_attrs t; is_sig := sg |}]). split; [|split; [|split]].
+      + rewrite E2, E1, <- app_assoc. reflexivity.
+      + rewrite map_app, E3. cbn [map rev is_attrs]. reflexivity.
+      + apply Forall_app. split; [exact E4|]. constructor; [|constructor].
+        unfold key32. cbn [is_attrs]. rewrite (recorded_key_attr_pk _ _ Hr). exact Hl.
+      + constructor; [split; assumption|exact E5].
   Qed.
+
+  Theorem attempts_from_empty (hash : bytes) (ts : list attempt) :
+    Valid_self ed_ok hash (ib_stack (attempts hash empty_block ts)) /\
+    map is_attrs (ib_stack (attempts hash empty_block ts)) =
+      rev (map at_attrs (accepted hash empty_block ts)) /\
+    Forall key32 (ib_stack (attempts hash empty_block ts)).
+  Proof.
+    destruct (attempts_invariant hash ts empty_block (Valid_self_nil ed_ok hash))
+      as [HS [newer [E1 [E2 [E3 _]]]]].
+    cbn [ib_stack empty_block] in E1. rewrite app_nil_r in E1. rewrite E1.
+    split; [rewrite <- E1; exact HS|]. split; assumption.
+  Qed.
+
+  (* the history is the successful calls alone *)
+  Definition op_of (t : attempt) : bytes * attrs := (at_pk t, at_attrs t).
+  Definition with_strat (strat : bytes -> R bytes) (op : bytes * attrs) : attempt :=
+    {| at_strat := strat; at_pk := fst op; at_attrs := snd op |}.
+
+  Lemma attempts_accepted (hash : bytes) (ts : list attempt) :
+    forall b, attempts hash b (accepted hash b ts) = attempts hash b ts /\
+              accepted hash b (accepted hash b ts) = accepted hash b ts.
+  Proof.
+    induction ts as [|t ts IH]; intros b; cbn [attempts accepted]; [split; reflexivity|].
+    unfold attempt_step. destruct (try_sign hash b t) as [b1| | |] eqn:H1; try apply IH.
+    cbn [attempts accepted]. unfold attempt_step. rewrite H1.
+    destruct (IH b1) as [E1 E2]. split; [exact E1|]. rewrite E2. reflexivity.
+  Qed.
+
+  (* with one strategy throughout, a sequence without failures is sign_all *)
+  Lemma sign_all_attempts (strat : bytes -> R bytes) (hash : bytes) (ops : list (bytes * attrs)) :
+    forall b b', sign_all strat ed_ok hash b ops = Ok b' ->
+      attempts hash b (map (with_strat strat) ops) = b' /\
+      accepted hash b (map (with_strat strat) ops) = map (with_strat strat) ops.
+  Proof.
+    induction ops as [|[pk a] ops IH]; intros b b' H; cbn [sign_all] in H; cbn [map attempts accepted].
+    - injection H as <-. split; reflexivity.
+    - unfold attempt_step, try_sign. cbn [with_strat at_strat at_pk at_attrs fst snd].
+      destruct (sign_and_add strat ed_ok hash b pk a) as [b1| | |] eqn:H1; cbn [bind] in H; try discriminate.
+      destruct (IH b1 b' H) as [E1 E2]. split; [exact E1|]. rewrite E2. reflexivity.
+  Qed.
+End Attempts.
+
+(* the premises of the refusal theorems cannot be dropped *)
+(* missing attribute and EMPTY key: bytes.Equal(nil, []) holds, the attribute
+   test passes and the call goes on to the strategy; it is stopped only by
+   the key-length test afterwards.  With a strategy that panics the result is
+   the panic, not the error. *)
+Lemma sign_and_add_no_key_needs_nonempty :
+  exists (strat : bytes -> R bytes) (ed_ok : bytes -> bytes -> bytes -> bool) (hash : bytes) (a : attrs),
+    (forall v, ~ In (pk_attr_name, v) a) /\
+    sign_and_add strat ed_ok hash empty_block [] a = Panic.
+Proof.
+  exists (fun _ => Panic), (fun _ _ _ => true), [], []. split; [intros v H; exact H|].
+  vm_compute. reflexivity.
+Qed.
+
+Lemma sign_and_add_bad_key_length_needs_no_panic :
+  exists (strat : bytes -> R bytes) (ed_ok : bytes -> bytes -> bytes -> bool) (hash pk : bytes),
+    lenN pk <> 32 /\ sign_and_add strat ed_ok hash empty_block pk [(pk_attr_name, pk)] = Panic.
+Proof.
+  exists (fun _ => Panic), (fun _ _ _ => true), [], [7]. split; [discriminate|].
+  vm_compute. reflexivity.
+Qed.
+
+(* an association list with the name twice: the lookup takes the FIRST entry.
+   Whichever way round, the call fails - so no theorem above needs NoDup - but
+   for different reasons: attribute test / attributes do not encode *)
+Lemma sign_and_add_dup_name_cases :
+  let strat := fun _ : bytes => Ok [1] in
+  let ed_ok := fun _ _ _ : bytes => true in
+  let pk := repeat 1 32 in let pk2 := repeat 2 32 in
+  attr_pk [(pk_attr_name, pk2); (pk_attr_name, pk)] = pk2 /\
+  sign_and_add strat ed_ok [] empty_block pk [(pk_attr_name, pk2); (pk_attr_name, pk)] = Err /\
+  attr_pk [(pk_attr_name, pk); (pk_attr_name, pk2)] = pk /\
+  attrs_cbor [(pk_attr_name, pk); (pk_attr_name, pk2)] = Err /\
+  sign_and_add strat ed_ok [] empty_block pk [(pk_attr_name, pk); (pk_attr_name, pk2)] = Err /\
+  (exists b', sign_and_add strat ed_ok [] empty_block pk [(pk_attr_name, pk)] = Ok b').
+Proof. vm_compute. repeat split. eexists. reflexivity. Qed.
+
+Section Sign.
+  Variable H512 : bytes -> bytes.
+  Variable strat_sign : bytes -> R bytes.
+  Variable ed_ok : bytes -> bytes -> bytes -> bool.
 
   (* ---- SignWithIntegrityBlock ------------------------------------------------- *)
   Definition pk_attrs (pk : bytes) : attrs := [(pk_attr_name, pk)].
@@ -368,6 +877,16 @@ Section Sign.
     unfold enc_map, sort_entries, pk_attrs, pk_attrs_bytes.
     cbn [map isort insert adjacent_dup flat_map fst snd attr_entry].
     rewrite app_nil_r. reflexivity.
+  Qed.
+
+  Lemma attr_pk_pk_attrs (pk : bytes) : attr_pk (pk_attrs pk) = pk.
+  Proof.
+    unfold attr_pk, pk_attrs, is_pk_attr. cbn [find fst snd]. rewrite bytes_eqb_refl. reflexivity.
+  Qed.
+
+  Lemma recorded_key_pk_attrs (pk : bytes) : recorded_key (pk_attrs pk) pk.
+  Proof.
+    unfold recorded_key, pk_attrs, is_pk_attr. cbn [find fst snd]. rewrite bytes_eqb_refl. reflexivity.
   Qed.
 
   (* what the single signature of sign_file is computed over *)
@@ -401,24 +920,28 @@ Section Sign.
     obtain file = Ok empty_block ->
     sign_file H512 strat_sign ed_ok file pk =
     let* sg := strat_sign (sign_file_dtbs file pk) in
-    if negb (ed_ok pk (sign_file_dtbs file pk) sg) then Err
+    if negb (lenN pk =? 32) then Err
+    else if negb (ed_ok pk (sign_file_dtbs file pk) sg) then Err
     else if negb (det_accepts (one_sig_bytes pk sg)) then Err
          else Ok (one_sig_bytes pk sg ++ file).
   Proof.
-    intros Ho. unfold sign_file. rewrite Ho. cbn [bind]. unfold sign_and_add.
+    intros Ho. unfold sign_file. rewrite Ho. cbn [bind].
+    change [(pk_attr_name, pk)] with (pk_attrs pk).
+    rewrite sign_and_add_unfold, attr_pk_pk_attrs, bytes_eqb_refl. cbn [negb].
     change (block_cbor empty_block) with (Ok empty_block_bytes). cbn [bind].
     rewrite det_accepts_empty. cbn [negb].
-    change [(pk_attr_name, pk)] with (pk_attrs pk).
     rewrite dtbs_pk. cbn [bind]. fold (sign_file_dtbs file pk).
     destruct (strat_sign (sign_file_dtbs file pk)) as [sg| | |]; cbn [bind]; try reflexivity.
+    destruct (negb (lenN pk =? 32)); [reflexivity|].
     destruct (ed_ok pk (sign_file_dtbs file pk) sg); cbn [negb]; [|reflexivity].
+    unfold push. cbn [ib_stack empty_block].
     cbn [bind]. change {| ib_stack := _ |} with (one_sig_block pk sg).
     rewrite block_cbor_one_sig. cbn [bind]. reflexivity.
   Qed.
 
   Theorem sign_file_ok_iff (file pk out : bytes) :
     sign_file H512 strat_sign ed_ok file pk = Ok out <->
-    obtain file = Ok empty_block /\
+    obtain file = Ok empty_block /\ lenN pk = 32 /\
     exists sg, strat_sign (sign_file_dtbs file pk) = Ok sg /\
                ed_ok pk (sign_file_dtbs file pk) sg = true /\
                det_check (one_sig_bytes pk sg) = Accept /\
@@ -431,12 +954,13 @@ Section Sign.
         unfold sign_file in H. rewrite E in H. discriminate. }
       split; [exact Ho|]. rewrite (sign_file_unfold file pk Ho) in H.
       destruct (strat_sign (sign_file_dtbs file pk)) as [sg| | |] eqn:Hs; cbn [bind] in H; try discriminate.
+      destruct (N.eqb_spec (lenN pk) 32) as [Hl|Hl]; cbn [negb] in H; [|discriminate].
       destruct (ed_ok pk (sign_file_dtbs file pk) sg) eqn:He; cbn [negb] in H; [|discriminate].
       destruct (det_accepts (one_sig_bytes pk sg)) eqn:Hd; cbn [negb] in H; [|discriminate].
-      injection H as <-. exists sg. apply det_accepts_iff in Hd.
+      injection H as <-. split; [exact Hl|]. exists sg. apply det_accepts_iff in Hd.
       repeat split; try assumption; reflexivity.
-    - intros [Ho [sg [H1 [H2 [H3 H4]]]]]. rewrite (sign_file_unfold file pk Ho).
-      rewrite H1. cbn [bind]. rewrite H2. cbn [negb].
+    - intros [Ho [Hl [sg [H1 [H2 [H3 H4]]]]]]. rewrite (sign_file_unfold file pk Ho).
+      rewrite H1. cbn [bind]. apply N.eqb_eq in Hl. rewrite Hl. cbn [negb]. rewrite H2. cbn [negb].
       apply det_accepts_iff in H3. rewrite H3. cbn [negb]. rewrite H4. reflexivity.
   Qed.
 
@@ -450,21 +974,23 @@ Section Sign.
       block_cbor empty_block = Ok empty_block_bytes /\
       data_to_be_signed (H512 file) empty_block_bytes (pk_attrs pk) = Ok dtbs /\
       strat_sign dtbs = Ok sg /\ ed_ok pk dtbs sg = true /\
-      Valid_self (H512 file) (ib_stack (one_sig_block pk sg)).
+      Valid_self ed_ok (H512 file) (ib_stack (one_sig_block pk sg)) /\
+      recorded_key (pk_attrs pk) pk /\ lenN pk = 32.
   Proof.
-    intros H. apply sign_file_ok_iff in H. destruct H as [Ho [sg [H1 [H2 [H3 H4]]]]].
+    intros H. apply sign_file_ok_iff in H. destruct H as [Ho [Hl [sg [H1 [H2 [H3 H4]]]]]].
     exists (one_sig_bytes pk sg), sg, (sign_file_dtbs file pk).
     split; [exact H4|]. split; [apply block_cbor_one_sig|]. split; [reflexivity|].
     split; [exact H3|]. split; [reflexivity|]. split; [apply dtbs_pk|].
     split; [exact H1|]. split; [exact H2|].
+    split; [|split; [apply recorded_key_pk_attrs|exact Hl]].
     exists [pk]. split.
-    - apply (VS_cons _ _ _ _ _ empty_block_bytes (sign_file_dtbs file pk)).
+    - apply (VS_cons _ _ _ _ _ _ empty_block_bytes (sign_file_dtbs file pk)).
       + reflexivity.
       + apply det_accepts_iff. exact det_accepts_empty.
       + apply dtbs_pk.
       + exact H2.
       + constructor.
-    - constructor; [left; reflexivity|constructor].
+    - constructor; [apply recorded_key_pk_attrs|constructor].
   Qed.
 
   Theorem sign_file_err_obtain (file pk : bytes) :
@@ -484,7 +1010,25 @@ Section Sign.
     sign_file H512 strat_sign ed_ok file pk = Err.
   Proof.
     intros H1 H2. destruct (obtain_never_panics file) as [E|E]; [apply sign_file_err_obtain; exact E|].
-    rewrite (sign_file_unfold file pk E), H1. cbn [bind]. rewrite H2. reflexivity.
+    rewrite (sign_file_unfold file pk E), H1. cbn [bind]. rewrite H2.
+    destruct (negb (lenN pk =? 32)); reflexivity.
+  Qed.
+
+  (* a key of the wrong length: nothing is written *)
+  Theorem sign_file_bad_key_length_never_ok (file pk : bytes) :
+    lenN pk <> 32 -> forall out, sign_file H512 strat_sign ed_ok file pk <> Ok out.
+  Proof.
+    intros Hl out H. apply sign_file_ok_iff in H. destruct H as [_ [Hl' _]]. contradiction.
+  Qed.
+
+  Theorem sign_file_err_key_length (file pk : bytes) :
+    no_panic strat_sign -> lenN pk <> 32 -> sign_file H512 strat_sign ed_ok file pk = Err.
+  Proof.
+    intros Hs Hl. destruct (obtain_never_panics file) as [E|E]; [apply sign_file_err_obtain; exact E|].
+    rewrite (sign_file_unfold file pk E). destruct (Hs (sign_file_dtbs file pk)) as [N1 N2].
+    destruct (strat_sign (sign_file_dtbs file pk)) as [sg| | |]; cbn [bind];
+      [|reflexivity|contradiction|contradiction].
+    destruct (N.eqb_spec (lenN pk) 32) as [C|C]; [contradiction|reflexivity].
   Qed.
 
   (* the three refusals of the C07 text, at the level of the whole flow *)
@@ -511,12 +1055,14 @@ Section Sign.
      flow succeeds - in particular neither deterministic check can fail *)
   Theorem sign_file_complete (file pk sg : bytes) :
     obtain file = Ok empty_block ->
-    wfb pk -> lenN pk < two64 -> wfb sg -> lenN sg < two64 ->
+    wfb pk -> lenN pk = 32 -> wfb sg -> lenN sg < two64 ->
     strat_sign (sign_file_dtbs file pk) = Ok sg ->
     ed_ok pk (sign_file_dtbs file pk) sg = true ->
     sign_file H512 strat_sign ed_ok file pk = Ok (one_sig_bytes pk sg ++ file).
   Proof.
-    intros Ho Wp Lp Ws Ls H1 H2. apply sign_file_ok_iff. split; [exact Ho|].
+    intros Ho Wp Lp32 Ws Ls H1 H2.
+    assert (Lp : lenN pk < two64) by (rewrite Lp32; reflexivity).
+    apply sign_file_ok_iff. split; [exact Ho|]. split; [exact Lp32|].
     exists sg. split; [exact H1|]. split; [exact H2|]. split; [|reflexivity].
     apply (block_cbor_det (one_sig_block pk sg)); [apply one_sig_block_wf; assumption|].
     apply block_cbor_one_sig.
@@ -524,7 +1070,7 @@ Section Sign.
 
   (* no panic and no divergence unless the signing strategy itself panics *)
   Theorem sign_file_never_panics (file pk : bytes) :
-    (forall m, strat_sign m <> Panic /\ strat_sign m <> Fuel) ->
+    no_panic strat_sign ->
     sign_file H512 strat_sign ed_ok file pk = Err \/
     exists out, sign_file H512 strat_sign ed_ok file pk = Ok out.
   Proof.
@@ -533,6 +1079,7 @@ Section Sign.
     destruct (Hs (sign_file_dtbs file pk)) as [N1 N2].
     destruct (strat_sign (sign_file_dtbs file pk)) as [sg| | |]; cbn [bind];
       [|left; reflexivity|contradiction|contradiction].
+    destruct (negb (lenN pk =? 32)); [left; reflexivity|].
     destruct (negb (ed_ok _ _ _)); [left; reflexivity|].
     destruct (negb (det_accepts _)); [left; reflexivity|right; eexists; reflexivity].
   Qed.
